@@ -195,7 +195,7 @@ pub mod fs {
             mkdirs_post(old(w).fs, final(w).fs, p.pathv()),
             forall|i: int| old(w).hist.len() <= i < final(w).hist.len() ==> mkdirs_post(old(w).fs, #[trigger] final(w).hist[i], p.pathv()),
             r is Ok ==> final(w).fs.dirs.contains(p.pathv()),
-            old(w).healthy ==> r is Ok,
+            old(w).healthy && !exists_file_on_path(old(w).fs, p.pathv()) ==> r is Ok,
     { unimplemented!() }
 
     #[verifier::external_body]
